@@ -302,7 +302,10 @@ def plumbing_obligation(prop):
             have = plumbing.defaults_of(fn)
             for p_, v_ in want.items():
                 ndef += 1
-                if p_ in have and have[p_] is not None and have[p_] != v_:
+                eff_ = have.get(p_)
+                if eff_ == "None" and v_ != "None":
+                    eff_ = plumbing.filled_default(fn, p_) or eff_  # None as a sentinel, the old value filled in inside the function
+                if p_ in have and have[p_] is not None and eff_ != v_:
                     ctx.finding(q, f"default of {p_}", f"the default of `{p_}` in {q} changed from {v_} to {have[p_]}: every call that does not pass "
                                 "it (the property's default options, and the callers inside the package that rely on it) now behaves differently",
                                 fn, m)
@@ -438,7 +441,8 @@ def selectors_obligation(prop):
                             "earlier iterations are lost", st, m)
         ctx.count(n_fn, {"modules": mods, "functions scanned": n_fn, "named selectors examined": n_sel, "accumulators examined": n_acc})
 
-    return Obligation("OX.S", "named row selectors are not reused after the column they test was rewritten (def-use rule over the property's modules)",
+    return Obligation("OX.S", "def-use rules over the property's modules: named row selectors are not reused after the column they test was rewritten; "
+                              "a result started empty before a loop is extended, not overwritten, inside it",
                       run, floor=1)
 
 
